@@ -206,3 +206,9 @@ def main(tier: str, seed: int) -> int:
         extra_tasks=horizon.tasks(PID, tier, seed),
     )
     return rep.finish()
+
+
+def replay(doc: Dict[str, Any]) -> int:
+    from mc.graphprops import replay as _r
+
+    return _r(PID, doc)
